@@ -293,9 +293,15 @@ def run_history(dec, history, want_model=True):
                     continue
                 cnt('history:compared-with-model')
                 if not Q.same_result(reused[k], by[e]):
+                    # F16c on a tree without the fix: compressed data, empty selection, the implementation raises
+                    f16c = bool(d['comp'] and by[e] == ([], []) and isinstance(reused[k], str))
+                    if f16c and any(g.get('empty_selection_on_compressed') for g in findings):
+                        continue
                     findings.append({'kind': 'correspondence', 'stage': 'history-model', 'object': 'DataQuerent', 'step': k,
+                                     'empty_selection_on_compressed': f16c,
                                      'why': 'DataQuerent (used before, a fresh one answers the same) %s, model %s' % (Q.show(reused[k]), Q.show(by[e]))})
-                    break
+                    if not f16c:
+                        break
         # the model's parser OBJECT over the same sequence of expressions
         ph = core.Driver().batch([{'op': 'parser-history', 'exprs': [e for (_, e, _) in history]}])[0]
         par2 = NodePathParser()
@@ -402,9 +408,16 @@ def shrink(dec, history, f):
     if f['stage'] != 'history':
         return history[:k + 1], f
     best, bestf = history[:k + 1], f
-    if held is not None:
-        return best, bestf
     tries = 0
+    if held is not None:
+        for j in range(held + 1, len(history)):
+            if tries >= 30:
+                break
+            tries += 1
+            g = fails([history[held], history[j]])
+            if g:
+                return [history[held], history[j]], g
+        return history, f
     for j in range(k - 1, -1, -1):
         if tries >= 40:
             break
@@ -449,12 +462,13 @@ def evaluate(task):
     reports = []
     done = set()
     for f in findings:
-        key = (f['stage'], f['object'])
+        key = (f['stage'], f['object'], bool(f.get('empty_selection_on_compressed')))
         if key in done:
             continue
         done.add(key)
         h, g = shrink(dec, history, f) if task.get('history') is None else (history, f)
         reports.append({'kind': f['kind'], 'stage': f['stage'], 'object': f['object'], 'why': g['why'],
+                        'empty_selection_on_compressed': bool(f.get('empty_selection_on_compressed')),
                         'history': [[mi, e] for (mi, e, _) in h], 'full_length': len(history)})
     stats['history:groups'] = 1
     stats['history:messages'] = len(dec)
@@ -467,7 +481,8 @@ def evaluate(task):
 
 
 def signature(rep):
-    return {'kind': rep['kind'], 'stage': rep['stage'], 'object': rep['object']}
+    return {'kind': rep['kind'], 'stage': rep['stage'], 'object': rep['object'],
+            'empty_selection_on_compressed': bool(rep.get('empty_selection_on_compressed'))}
 
 
 def absorb(ctx, task, res):
